@@ -89,7 +89,7 @@ def _run_item(item):
         out["func"] = {"ident": src.ident() if src else qual, "sha256": src.sha256 if src else None}
     except Exception as e:
         out["func"] = {"ident": qual, "sha256": None, "error": str(e)}
-    timeout = 30000 if tier == "quick" else 120000
+    timeout = (30000 if tier == "quick" else 120000) * int(getattr(case, "timeout_factor", 1))  # heavy nonlinear cases state a larger budget
     if con.status == "proved":
         try:
             rep = verify.verify_case(con, case, timeout_ms=timeout)
